@@ -417,6 +417,9 @@ func runC08(p *Prog, r *Report, tier string) {
 	checkSetAccessors(p, r, "R-VALUE.set-accessors")
 	// header bookkeeping: the length field of the header is the size of the one buffer that is written (C02's rule)
 	checkMsgAssembly(p, r)
+	// imported from C09: every byte that reaches the connection is written by the one function that stamps the header
+	// (a refresher re-sending cached message bytes carries the sequence number of the moment the cache was filled)
+	checkConnWriters(p, r, "R-OWNER.write", "bytes written elsewhere (e.g. a cached, already stamped message that is sent again) carry a sequence number and export time that were not computed for this send")
 	// (5) imported sharing rule
 	checkSharing(p, r, "R-SHARE", "pkg/exporter", "ExportingProcess", map[string]string{
 		"pkg/exporter.ExportingProcess.jsonBufferLen": "written once by the constructor, read only on the Data/JSON path which no background goroutine takes",
